@@ -7,8 +7,10 @@ import (
 	"os"
 	"reflect"
 	"regexp"
+	"runtime"
 	"strings"
 	"sync"
+	"sync/atomic"
 	"unicode/utf16"
 	"unicode/utf8"
 
@@ -522,6 +524,9 @@ func c17FirstUse() {
 		const n = 32
 		outs := make([]string, n)
 		start := make(chan struct{})
+		// the first eight goroutines spin on a flag instead of sleeping on the channel, so that they really start within
+		// the same microsecond (a table that takes ten microseconds to fill is the window to hit)
+		var ready, gate int32
 		var wg sync.WaitGroup
 		for g := 0; g < n; g++ {
 			wg.Add(1)
@@ -532,7 +537,13 @@ func c17FirstUse() {
 						outs[g] = fmt.Sprint("panic: ", r)
 					}
 				}()
-				<-start
+				if g < 8 {
+					atomic.AddInt32(&ready, 1)
+					for atomic.LoadInt32(&gate) == 0 {
+					}
+				} else {
+					<-start
+				}
 				v, err := pongo2.ApplyFilter(f, pongo2.AsValue(sample), param)
 				if err != nil {
 					outs[g] = "error: " + err.Error()
@@ -541,6 +552,10 @@ func c17FirstUse() {
 				outs[g] = v.String()
 			}(g)
 		}
+		for spins := 0; atomic.LoadInt32(&ready) < 8 && spins < 1000000; spins++ {
+			runtime.Gosched()
+		}
+		atomic.StoreInt32(&gate, 1)
 		close(start)
 		wg.Wait()
 		want, _ := pongo2.ApplyFilter(f, pongo2.AsValue(sample), param)
